@@ -24,3 +24,37 @@ Check (C12_accepted_adts_frame_validates : (forall p d raw,
   bytes_ok d = true -> adts_to_raw d = AdtsOk raw -> vr_valid (validate_audio_frame (Aac p) d) = true)%type).
 Check (C12_opus_validation_is_the_muxers_check : (forall d,
   vr_valid (validate_audio_frame Opus d) = is_valid_opus_packet d)%type).
+Check (C12_find_start_code_ix_refines : (forall (d : bytes) (from : nat),
+  find_start_code_ix d from = IxOk (find_start_code d from))%type).
+Check (C12_nal_next_ix_refines : (forall (d : bytes) (cursor : nat),
+  nal_next_ix d cursor = IxOk (nal_next d cursor))%type).
+Check (C12_nal_iter_ix_refines : (forall d : bytes, nal_iter_ix d = IxOk (nal_iter d))%type).
+Check (C12_annexb_to_avcc_ix_refines : (forall d : bytes, annexb_to_avcc_ix d = IxOk (annexb_to_avcc d))%type).
+Check (C12_hevc_annexb_to_hvcc_ix_refines : (forall d : bytes,
+  hevc_annexb_to_hvcc_ix d = IxOk (hevc_annexb_to_hvcc d))%type).
+Check (C12_adts_to_raw_ix_refines : (forall frame : bytes, adts_to_raw_ix frame = IxOk (adts_to_raw frame))%type).
+Check (C12_build_avcc_box_ix_refines : (forall c : avc_config, build_avcc_box_ix c = IxOk (build_avcc_box c))%type).
+Check (C12_is_h264_keyframe_ix_refines : (forall d : bytes, is_h264_keyframe_ix d = IxOk (is_h264_keyframe d))%type).
+Check (C12_is_hevc_keyframe_ix_refines : (forall d : bytes, is_hevc_keyframe_ix d = IxOk (is_hevc_keyframe d))%type).
+Check (C12_extract_avc_config_ix_refines : (forall d : bytes,
+  extract_avc_config_ix d = IxOk (extract_avc_config d))%type).
+Check (C12_extract_hevc_config_ix_refines : (forall d : bytes,
+  extract_hevc_config_ix d = IxOk (extract_hevc_config d))%type).
+Check (C12_opus_frame_count_ix_refines : (forall packet : bytes,
+  opus_frame_count_ix packet = IxOk (opus_frame_count packet))%type).
+Check (C12_opus_packet_samples_ix_refines : (forall packet : bytes,
+  opus_packet_samples_ix packet = IxOk (opus_packet_samples packet))%type).
+Check (C12_is_valid_opus_packet_ix_refines : (forall packet : bytes,
+  is_valid_opus_packet_ix packet = IxOk (is_valid_opus_packet packet))%type).
+Check (C12_is_vp9_keyframe_ix_refines : (forall f : bytes, is_vp9_keyframe_ix f = IxOk (is_vp9_keyframe f))%type).
+Check (C12_parse_vp9_var_uint_ix_refines : (forall (data : bytes) (offset : nat),
+  parse_vp9_var_uint_ix data offset = IxOk (parse_vp9_var_uint data offset))%type).
+Check (C12_extract_vp9_config_ix_refines : (forall k : bytes,
+  extract_vp9_config_ix k = IxOk (extract_vp9_config k))%type).
+Check (C12_read_leb128_ix_refines : (forall data : bytes, read_leb128_ix data = IxOk (read_leb128 data))%type).
+Check (C12_parse_obu_header_ix_refines : (forall data : bytes,
+  parse_obu_header_ix data = IxOk (parse_obu_header data))%type).
+Check (C12_obu_iter_ix_refines : (forall data : bytes, len data <= ISIZE_MAX ->
+  obu_iter_ix data = IxOk (obu_iter data))%type).
+Check (C12_is_av1_keyframe_ix_refines : (forall data : bytes, len data <= ISIZE_MAX ->
+  is_av1_keyframe_ix data = IxOk (is_av1_keyframe data))%type).
